@@ -253,8 +253,45 @@ def one_axis(el, axis, bad):
     return [bad if i % 2 == axis else c for i, c in enumerate(el)]
 
 
+def cast_after_index(chk, r, tier):
+    """an array that already has a spatial index is cast to another coordinate subtype (the coordinates change: float64 -> float32
+    rounds, -> int32 truncates): bounds, total_bounds and the index of the result are those of the new coordinates"""
+    def shift(el):
+        if el and isinstance(el[0], list):
+            return [shift(x) for x in el]
+        return [c + 0.3 for c in el]
+
+    def cast_el(el, f):
+        if el and isinstance(el[0], list):
+            return [cast_el(x, f) for x in el]
+        return [f(c) for c in el]
+    for kind in ("line", "multipoint", "multiline", "polygon", "ring", "multipolygon"):
+        els = [shift(e) for e in geo.structured_elements(kind, r, 10, mag=40) if e is not None and geo.verts_of(kind, e)][:5] + [None]
+        for indexed in (False, True):
+            src = geo.make_array(kind, els, "float64")
+            if indexed:
+                src.build_sindex()
+                src.cx[0:5, 0:5]
+            for target, f in (("float32", lambda c: float(np.float32(c))), ("int32", lambda c: float(int(c)))):
+                rep = dict(api="GeometryArray.astype", kind=kind, elements=els, target=target, source_has_index=indexed)
+                try:
+                    cast = src.astype(target)
+                    vs = [v for e in els if e is not None for v in geo.verts_of(kind, cast_el(e, f))]
+                    want = canon_row([min(v[0] for v in vs), min(v[1] for v in vs), max(v[0] for v in vs), max(v[1] for v in vs)])
+                    got_t, got_s = canon_row(cast.total_bounds), canon_row(cast.sindex.total_bounds)
+                    chk.evaluated(len(els))
+                    if got_t != want:
+                        chk.violation(f"total_bounds/{kind}/after-cast-differs", dict(rep, impl=got_t, expected=want))
+                    elif got_s != want:
+                        chk.violation(f"sindex.total_bounds/{kind}/after-cast-differs/{'source-indexed' if indexed else 'fresh'}", dict(rep, impl=got_s, expected=want))
+                except Exception as e:  # noqa: BLE001
+                    chk.drifted(f"astype({target}) of a {kind} array raises {common.err_kind(e)}", dict(rep, error=repr(e)[:200]))
+    chk.count("cast-after-index")
+
+
 def run_cases(chk, tier):
     r = common.rng(PROP)
+    cast_after_index(chk, r, tier)
     rounds = 6 if tier == "quick" else 40
     half_defined_partitions(chk, r, tier)
     pruned_read_columns(chk, r, tier)
